@@ -507,7 +507,8 @@ fn do_req(vfs: &Vfs, sh: &Arc<Shared>, t: &[&str]) -> String {
         "getattr" => fmt_io(vfs.getattr(ctx, ino.into(), None), |(a, _)| fmt_attr(&a)),
         "setattr" => {
             let st = mk_stat(0, auid, agid, 0);
-            fmt_io(vfs.setattr(ctx, ino.into(), st, None, SetattrValid::UID | SetattrValid::GID), |(a, _)| fmt_attr(&a))
+            // the <size> token carries the FATTR_* valid bits of a SETATTR (MODE 1, UID 2, GID 4, SIZE 8, ...)
+            fmt_io(vfs.setattr(ctx, ino.into(), st, None, SetattrValid::from_bits_truncate(size)), |(a, _)| fmt_attr(&a))
         }
         "readlink" => fmt_io(vfs.readlink(ctx, ino.into()), |v| format!("{}", u64::from_le_bytes(v[..8].try_into().unwrap()))),
         "symlink" => fmt_io(vfs.symlink(ctx, &name2, ino.into(), &name), |e| fmt_entry(&e)),
